@@ -4,10 +4,11 @@
 import Driver.Proto
 import Driver.OpsDates
 import Driver.OpsBind
+import Driver.OpsC01
 open Lean
 
 def dispatchers : List (String → Json → Option (Except String Json)) :=
-  [OpsDates.run, OpsBind.run]
+  [OpsDates.run, OpsBind.run, OpsC01.run]
 
 def handle (line : String) : Json :=
   match Json.parse line with
